@@ -21,7 +21,7 @@ type aff struct {
 }
 
 func affConst(c int64) aff { return aff{c: c, syms: map[string]int64{}, ok: true} }
-func affAtom(n string) aff  { return aff{syms: map[string]int64{n: 1}, ok: true} }
+func affAtom(n string) aff { return aff{syms: map[string]int64{n: 1}, ok: true} }
 
 func (x aff) add(y aff, sign int64) aff {
 	if !x.ok || !y.ok {
@@ -97,7 +97,7 @@ type wf struct {
 	bases map[ssa.Value]aff // slice value -> offset of its element 0 within the body
 	memo  map[ssa.Value]aff
 	extra func(v ssa.Value) (aff, bool) // caller-supplied atoms
-	res   *Result                        // optional SCCP specialisation (constants folded, dead blocks skipped)
+	res   *Result                       // optional SCCP specialisation (constants folded, dead blocks skipped)
 }
 
 func newWF(f *ssa.Function) *wf {
